@@ -198,6 +198,30 @@ func (g *Gen) body(ind string) string {
 			g.renderEdge(&sb, ind, e)
 		}
 	}
+	// indexed references to members of parallel groups: `(a -> b)[1].style.stroke: red`
+	// (what Delete has to renumber when an earlier member goes away)
+	grp := map[string]int{}
+	for _, e := range edges {
+		if e.scope != nil {
+			continue
+		}
+		k := joinPath(e.src) + " " + e.arrow + " " + joinPath(e.dst)
+		i := grp[k]
+		grp[k]++
+		if i > 0 && g.R.Intn(2) == 0 {
+			a := edgeAttrChoices[g.R.Intn(len(edgeAttrChoices))]
+			dup := false
+			for _, x := range e.attrs {
+				if x[0] == a[0] {
+					dup = true
+				}
+			}
+			if !dup {
+				fmt.Fprintf(&sb, "%s(%s)[%d].%s: %s\n", ind, k, i, a[0], a[1])
+				g.count("gen:indexed-edge-ref")
+			}
+		}
+	}
 	// extra references to existing objects (multiple references per object)
 	if g.MultiRef && len(all) > 0 {
 		for i := g.R.Intn(3); i > 0; i-- {
